@@ -284,7 +284,7 @@ class DefaultObjectMapper(object):
                                             feature=attr)
             if write_object is not NO_OBJECT:
                 d[attr._name] = write_object
-            if use_uuid:
-                resource._assign_uuid(obj)
-                d['uuid'] = obj._internal_id
+        if use_uuid:
+            resource._assign_uuid(obj)
+            d['uuid'] = obj._internal_id
         return d
